@@ -205,7 +205,7 @@ func (d *SevData) validateSections() error {
 	// An internal sortable type to check for overlap
 	type sectionCheck struct {
 		start uint32
-		end   uint32
+		end   uint64
 		kind  uint32
 	}
 	checkData := make([]sectionCheck, len(d.snpMetadataSections))
@@ -233,7 +233,7 @@ func (d *SevData) validateSections() error {
 		}
 		checkData[i] = sectionCheck{
 			start: section.Address,
-			end:   section.Address + section.Length,
+			end:   uint64(section.Address) + uint64(section.Length),
 			kind:  section.Kind}
 	}
 
@@ -255,7 +255,7 @@ func (d *SevData) validateSections() error {
 		return checkData[i].start < checkData[j].start
 	})
 	for i := 0; i < len(checkData)-1; i++ {
-		if checkData[i].end > checkData[i+1].start {
+		if checkData[i].end > uint64(checkData[i+1].start) {
 			return fmt.Errorf("SEV section %s: [0x%x-0x%x] overlaps with %s: [0x%x-0x%x]",
 				SevSectionTypeToString(checkData[i].kind), checkData[i].start,
 				checkData[i].end, SevSectionTypeToString(checkData[i+1].kind),
